@@ -71,6 +71,30 @@ def paths():
            [("c0.b", BOOL_DOM), ("c0.c", BOOL_DOM), ("a.i", INT_DOM), ("b0.i", INT_DOM), ("c0.i", INT_DOM)])
 
 
+    yield ("same-property-twice-same-block",
+           "let p1 = c0.b ? a : b0; let q1 = c0.c ? b0 : c0; let w = p1; let x = w.i; w = q1;", "(x * 3 + w.i)",
+           lambda st: (st["a.i"] if st["c0.b"] else st["b0.i"]) * 3 + (st["b0.i"] if st["c0.c"] else st["c0.i"]),
+           [("c0.b", BOOL_DOM), ("c0.c", BOOL_DOM), ("a.i", INT_DOM), ("b0.i", INT_DOM), ("c0.i", INT_DOM)])
+    yield ("two-pointer-properties-same-block", "let w = a.p; let x = (w != null ? w.i : 5); w = a.q;", "(x * 3 + (w != null ? w.i : 6))",
+           lambda st: (deref(st, st["a.p"], "i") if st["a.p"] is not None else 5) * 3 +
+                      (deref(st, st["a.q"], "i") if st["a.q"] is not None else 6),
+           [("a.p", P3), ("a.q", P3), ("b0.i", INT_DOM), ("c0.i", INT_DOM)])
+    yield ("three-reads-one-local", "let w = a.p; let x = 0; if (w != null) { x = w.i + w.j; w = w.q; if (w != null) { x = x * 3 + w.i; } }", "x",
+           lambda st: three_reads(st),
+           [("a.p", P3), ("b0.q", P3), ("c0.q", P3), ("b0.i", INT_DOM), ("c0.i", INT_DOM), ("b0.j", [0, 1]), ("c0.j", [0, 1])])
+
+
+def three_reads(st):
+    w = st["a.p"]
+    x = 0
+    if w is not None:
+        x = st[f"{w}.i"] + st[f"{w}.j"]
+        w = st[f"{w}.q"]
+        if w is not None:
+            x = x * 3 + st[f"{w}.i"]
+    return x
+
+
 # positions: name -> (body template, python wrapper, extra props)
 def positions():
     yield ("unconditional", "{pre} return {R};", lambda st, r: r(st), [])
